@@ -137,11 +137,14 @@ def handler(rng, name, up):
 
 def source(rng, name, batch_p=0.25):
     c = rng.choice(GRID)
-    budget = rng.choice([INF, INF, 1, 3, 7, 12]) if c > 0 else rng.choice([1, 3, 7, 12])      # W1
+    budget = rng.choice([INF, INF, 1, 3, 7, 12, 0]) if c > 0 else rng.choice([1, 3, 7, 12, 0])      # W1
     batch = None
     if rng.random() < batch_p:
         batch = rng.choice([0, 2, 3, [1, 3], [2, 0, 4], [3, 2]])
-    return {'k': 'S', 'n': name, 'c': c, 'budget': budget, 'batch': batch, 'val': rng.choice([0, 1, 2.5])}
+    d = {'k': 'S', 'n': name, 'c': c, 'budget': budget, 'batch': batch, 'val': rng.choice([0, 1, 2.5])}
+    if batch is not None and rng.random() < 0.4:
+        d['pallet'] = True      # batches are instances of a user-defined subclass of Batch
+    return d
 
 
 # ------------------------------------------------------------------------------------------ general
@@ -386,7 +389,8 @@ def gen_buffers(rng, noise=False):
         prev = ['BA0']
     nb = rng.choice([1, 1, 2, 3])
     for j in range(nb):
-        devs.append({'k': 'B', 'n': f'B{j}', 'c': rng.choice(grid), 'cap': rng.choice([1, 2, 3, 4, 4, INF]), 'up': prev})
+        devs.append({'k': 'B', 'n': f'B{j}', 'c': rng.choice(grid if noise else [0, 0, 0] + grid),
+                     'cap': rng.choice([1, 2, 3, 4, 4, INF]), 'up': prev})
         prev = [f'B{j}']
         if rng.random() < 0.4 and j < nb - 1:
             devs.append({'k': 'H', 'n': f'Hm{j}', 'c': rng.choice(grid), 'up': prev})
@@ -650,21 +654,31 @@ def gen_parallel(rng):
     for i in range(ns):
         devs.append({'k': 'S', 'n': f'S{i}', 'c': rng.choice(G), 'budget': rng.choice([4, 9, INF]), 'batch': None, 'val': 0})
     srcs = [f'S{i}' for i in range(ns)]
-    if rng.random() < 0.5:
+    front = rng.random()
+    if front < 0.4:
         devs.append({'k': 'B', 'n': 'U', 'c': 0, 'cap': rng.choice([1, 3, INF]), 'up': srcs})
-    else:
+    elif front < 0.75:
         devs.append({'k': 'H', 'n': 'U', 'c': rng.choice([0, 1]), 'up': srcs})
+    else:
+        # the parallel stations sit directly behind a group path (the path chooses among them)
+        spec['groups'].append({'n': 'G0', 'devs': [{'k': 'H', 'n': 'G0d0', 'c': rng.choice([0, 0.5]), 'up': []}]})
+        devs.append({'k': 'GP', 'n': 'U', 'g': 'G0', 'up': srcs})
     par = []
     nonsink = []
     for i in range(rng.choice([2, 3, 4])):
         k = rng.choice('HPPK')
+        up_i = ['U']
+        if front < 0.75 and rng.random() < 0.3:
+            # an always-accepting gate in front of this station (a pass-through branch)
+            devs.append({'k': 'G', 'n': f'Gx{i}', 'q': 0, 'neg': False, 'up': ['U']})
+            up_i = [f'Gx{i}']
         if k == 'H':
-            devs.append({'k': 'H', 'n': f'X{i}', 'c': rng.choice(G), 'up': ['U']})
+            devs.append({'k': 'H', 'n': f'X{i}', 'c': rng.choice(G), 'up': up_i})
         elif k == 'P':
-            devs.append({'k': 'P', 'n': f'X{i}', 'c': rng.choice(G), 'up': ['U'], 'res': rng.choice([None, {'r': 1}, {'r': 2}]),
+            devs.append({'k': 'P', 'n': f'X{i}', 'c': rng.choice(G), 'up': up_i, 'res': rng.choice([None, {'r': 1}, {'r': 2}]),
                          'alt': None, 'wod': rng.choice([0.5, 2]), 'wocap': 1, 'wocost': 0})
         else:
-            devs.append({'k': 'K', 'n': f'X{i}', 'c': rng.choice(G), 'up': ['U']})
+            devs.append({'k': 'K', 'n': f'X{i}', 'c': rng.choice(G), 'up': up_i})
         par.append((f'X{i}', k))
         if k != 'K':
             nonsink.append(f'X{i}')
@@ -763,6 +777,8 @@ def well_posed(spec):
         for g in gates:
             twin = [h for h in gates if h is not g and h.get('mod') == g.get('mod') and h.get('q') == g.get('q')
                     and h['neg'] != g['neg'] and sorted(h['up']) == sorted(g['up'])]
+            if 'q' in g and g['q'] == 0 and not g['neg']:
+                continue                     # an always-accepting gate needs no complement
             if ('q' not in g and g['mod'] < 2) or not twin:
                 return False
             if 'q' in g:
